@@ -13,7 +13,7 @@ func init() {
 		ID:          "C14",
 		Explanation: "structural clauses of the cutting-planes search loop only: (R14.1) a literal learned by conflict analysis is bound at the top level only after every binding above level 1 was retracted, a conflict while binding it leads to the function that concludes Unsat, and the decision heap is rebuilt before the next decision - in every search loop, so the pseudo-boolean loop treats learned facts exactly as the clause-learning loop does; (R14.2) the `no constraint can be learned / constraint is false` sentinel of the analyser leads to the Unsat conclusion; (R1.8) a learned constraint becomes the reason of the literals it propagates; (R1.4) a learned constraint dropped from the database is removed from the watch lists; (R9.1) the per-variable buffers of the strategy grow with the variable set.",
 		NotDecided:  "everything arithmetic: cancelling addition, weakening, division, slack, choice of the backjump level, i.e. that learned constraints are implied and that verdict and optimum are unchanged. Most conceivable defects of the strategy are of that kind and are NOT detected by this check. A scratch differential run (DESIGN.md section 4, D30) shows that the strategy does panic and answer wrongly on the unchanged tree; only the unbounded trail walk behind the panics is reported (R14.4, known finding), the wrong answers are not.",
-		Rules:       []ruleFn{ruleR14_1, ruleR14_2, ruleR14_3, ruleR14_4, ruleR1_8, ruleR1_11, ruleR1_4, ruleR9_1, ruleR2_9},
+		Rules:       []ruleFn{ruleR14_1, ruleR14_2, ruleR14_3, ruleR14_4, ruleR14_5, ruleR14_6, ruleR14_7, ruleR1_8, ruleR1_11, ruleR1_4, ruleR9_1, ruleR2_9},
 	})
 }
 
